@@ -212,11 +212,21 @@ Inductive src := SMaster | SCo (j : nat).     (* the master, or checkout j's tre
 Definition branch_eqb (a b : branch) : bool := opt_eqb (tip a) (tip b) && (revno a =? revno b).
 
 (* GenericInterBranch.pull: a bound target whose master is not the source
-   first pulls into the master (an error there changes nothing), then _pull
+   first pulls into the master with the same stop_revision (an error there
+   changes nothing), then _pull
    into the target (an error there leaves the master already updated).
    WorkingTree.pull: when last_revision_info changed, the tree parents become
    [new tip] + get_parent_ids()[1:]. *)
-Definition pull (s : sys) (i : nat) (sr : src) : outcome * sys :=
+(* the stop revision of `pull -r`: [back = Some k] asks for the k-th left-hand
+   ancestor of the source tip (the oldest one when the history is shorter);
+   [None], or an empty source: no stop revision *)
+Definition stop_back (g : dag) (sb : branch) (back : option nat) : option revid :=
+  match back, tip sb with
+  | Some k, Some t => let lh := lefthand g t in Some (nth k lh (last lh t))
+  | _, _ => None
+  end.
+
+Definition pull (s : sys) (i : nat) (sr : src) (back : option nat) : outcome * sys :=
   match nth_error (cos s) i with
   | None => (Fail NoSuchCheckout, s)
   | Some c =>
@@ -231,9 +241,10 @@ Definition pull (s : sys) (i : nat) (sr : src) : outcome * sys :=
       | None => (Fail NoSuchCheckout, s)
       | Some (sb, source_is_master) =>
           let g := graph s in
+          let stop := stop_back g sb back in
           let after_master :=
             if is_bound c && negb source_is_master
-            then match update_revisions g (mbranch s) false sb None false with
+            then match update_revisions g (mbranch s) false sb stop false with
                  | Err e => inl e
                  | Ok m' => inr (apply_write s (WMaster m'))
                  end
@@ -242,7 +253,7 @@ Definition pull (s : sys) (i : nat) (sr : src) : outcome * sys :=
           | inl e => (Fail (BU e), s)
           | inr s1 =>
               let old := branch_of s1 c in
-              match update_revisions g old false sb None false with
+              match update_revisions g old false sb stop false with
               | Err e => (Fail (BU e), s1)
               | Ok l' =>
                   let s2 := apply_write s1 (wbranch i c l') in
@@ -268,7 +279,7 @@ Definition set_bound (s : sys) (i : nat) (b : bool) : outcome * sys :=
 Inductive op :=
 | Commit (i : nat) (loc : bool) (fault : option nat)
 | Update (i : nat)
-| Pull (i : nat) (s : src)
+| Pull (i : nat) (s : src) (back : option nat)
 | Bind (i : nat)
 | Unbind (i : nat).
 
@@ -276,7 +287,7 @@ Definition step (s : sys) (o : op) : outcome * sys :=
   match o with
   | Commit i loc f => commit s i loc f
   | Update i => update s i
-  | Pull i sr => pull s i sr
+  | Pull i sr back => pull s i sr back
   | Bind i => set_bound s i true
   | Unbind i => set_bound s i false
   end.
